@@ -60,6 +60,15 @@ POOL = _ByType({
     'UNIQUE_ID': [0, 1, 2, 3],
     'REAL': [0, 500000, 1500000, -250000],
 })
+# key values that are DIFFERENT but have the same hash() in CPython: -1 / -2, and integers that differ by a multiple of
+# 2**61 - 1 — an index that keeps hash(key) instead of the key links them
+HASH_POOL = _ByType({
+    'INTEGER': [-1, -2, 1, 2 ** 61],
+    'STRING': ['', 'a', 'b', "o'k"],
+    'BOOLEAN': [False, True],
+    'UNIQUE_ID': [1, 2 ** 61, 2, 2 ** 61 + 1],
+    'REAL': [0, 500000, 1500000, -250000],
+})
 CARDS = ['1', '1C', 'M', 'MC']
 PHRASES = ['one', 'other', 'is part of']
 
@@ -341,9 +350,10 @@ def gen_population(rng, max_rows=4, phrase_mode='mixed', inferred_p=0.15, max_st
     classes, assocs, uniqs = gen_schema(rng, n_classes=n_classes, max_assocs=max_assocs, phrase_mode=phrase_mode,
                                         allow_empty_keys=allow_empty_keys)
     rows = []
+    pool = HASH_POOL if rng.random() < 0.2 else POOL
     for c in classes:
         for _ in range(rng.randint(0, max_rows)):
-            rows.append(gen_row(rng, c['kind'], c['attrs']))
+            rows.append(gen_row(rng, c['kind'], c['attrs'], pool=pool))
     # SHORT positional rows: the trailing attributes left out are referential ones, which stay unset (an unset key
     # refers to nothing, whatever the default of its type is)
     for r in rows:
